@@ -451,6 +451,24 @@ def check(P: Project, R: Report) -> None:
         sig = (tuple(sorted(set(tags))), bool(caught), tuple(synth), bool(deliver), tuple(m.split(":")[1] for m in maybe), notification)
         classes.setdefault(sig, (st, node))
     R.extra["exit_classes_after_post"] = len(classes)
+    # R7: every message that can be serialised is POSTed — whether a request is sent does not depend on earlier ones
+    R.rule("R7", "every message the routine can serialise reaches the POST: the only exit before it is the one taken for an object that is neither a model nor a dict; an exit (or a synthesised answer) before the POST under any other condition means an earlier request's outcome decides whether a later one is sent")
+    pre = {}
+    for kind, st, node in exits:
+        if "post" in st.events:
+            continue
+        mp_ = [p_ for p_ in send.positional_params() if p_ != "self"][0]
+        unserialisable = any(l in (f"not isinstance({mp_}, dict)",) or l.startswith(f"not isinstance({mp_}, (dict") for l in st.lits) and any(
+            l in (f"not hasattr({mp_}, 'model_dump')", f"getattr({mp_}, 'model_dump', None) is None", f"not getattr({mp_}, 'model_dump', None)") or (l.startswith("not ") and "model_dump" in l) for l in st.lits)
+        caught_ = any(k in (_handler_vars or ()) for k, _v in st.env) or any(" is not None" in l and l.split(" ")[0].split("·")[0] in {h.name for h in walk_local(send.node) if isinstance(h, ast.ExceptHandler) and h.name} for l in st.lits)
+        key = (unserialisable, caught_, tuple(sorted(l for l in st.lits if "self." in l))[:3])
+        pre.setdefault(key, (st, node))
+    for (unser, caught_, _k), (st, node) in sorted(pre.items(), key=lambda x: str(x[0])):
+        if caught_:
+            continue  # a failure while preparing the request (serialisation raised): nothing was sent for this message only
+        R.ob("R7", "an exit before the POST is the unserialisable-object exit", unser, f"{rel}:{getattr(node, 'lineno', send.node.lineno)}",
+             f"the routine ends before the POST under {sorted(l[:60] for l in st.lits)[:6]} (events {[e[:40] for e in st.events][:3]}): a serialisable message is not sent — state left by earlier requests decides it",
+             sample="R7 pre-POST exit only for an object that is neither model nor dict")
     n_ok = 0
 
     def exit_construct(node) -> str:
